@@ -469,6 +469,15 @@ class MpSerSuite(Suite):
                 cases.append(Case("mpser t:[" + ",".join(["N"] * z) + "]", kind="ser"))
                 cases.append(Case("mpser t:{" + ",".join("%s:T" % (b"k%d" % i).hex() for i in range(z)) + "}", kind="ser"))
                 cases.append(Case("mpser t:[[" + ",".join(["U1"] * z) + "],S62]", kind="ser"))
+        # 16/32-bit count and length headers on both sides of 65535/65536 (objects through MessagePack input: building 65536 members
+        # through operator[] is quadratic); the 65536-member cases are judged by the oracle only (the list-based model is quadratic there)
+        for z in (65535, 65536):
+            if z <= 65535:            # STRING_LENGTH_SIZE=2: longer strings cannot be stored
+                cases.append(Case("mpser t:S" + "61" * z, kind="ser"))
+            cases.append(Case("mpser m:" + (b"\xdc" + z.to_bytes(2, "big") if z < 65536 else b"\xdd" + z.to_bytes(4, "big")).hex() + "c0" * z, kind="ser",
+                              mline="mpspec -", nocompare=True))
+            cases.append(Case("mpser m:" + (b"\xde" + z.to_bytes(2, "big") if z < 65536 else b"\xdf" + z.to_bytes(4, "big")).hex() + "a161c0" * z, kind="ser",
+                              mline="mpspec -", nocompare=True))
         for v in mpack.BOUNDARY_INTS:
             for dv in (-1, 0, 1):
                 x = max(-2 ** 63, min(2 ** 64 - 1, v + dv))
@@ -540,6 +549,11 @@ def mp_expected_matches(mv, got, path="$", use_double=True):
         if got[0] == "f" and (got[1] == mv[1] or (gens.f32_value(mv[1]) == "nan" and gens.f32_value(got[1]) == "nan")):
             return []
         return ["%s: float32 %08x decoded as %s" % (path, mv[1], show_tree(got)[:40])]
+    if k == "f64" and not use_double:
+        want = py_float32(struct.unpack("<d", struct.pack("<Q", mv[1]))[0])
+        if got[0] == "f" and (got[1] == want or (gens.f32_value(want) == "nan" and gens.f32_value(got[1]) == "nan")):
+            return []
+        return ["%s: float64 %016x decoded as %s, the nearest float is %08x" % (path, mv[1], show_tree(got)[:40], want)]
     if k == "f64":
         x = gens.f64_value(mv[1])
         y = num_value(got)
@@ -561,14 +575,14 @@ def mp_expected_matches(mv, got, path="$", use_double=True):
             return ["%s: array decoded as %s" % (path, show_tree(got)[:60])]
         out = []
         for i, (a, b) in enumerate(zip(mv[1], got[1])):
-            out += mp_expected_matches(a, b, "%s[%d]" % (path, i))
+            out += mp_expected_matches(a, b, "%s[%d]" % (path, i), use_double)
         return out
     if k == "map":
         if got[0] != "O" or [m[0] for m in mv[1]] != [("str", m[0]) for m in got[1]]:
             return ["%s: map decoded as %s" % (path, show_tree(got)[:80])]
         out = []
         for (kk, a), (_, b) in zip(mv[1], got[1]):
-            out += mp_expected_matches(a, b, "%s.%s" % (path, kk[1].hex()))
+            out += mp_expected_matches(a, b, "%s.%s" % (path, kk[1].hex()), use_double)
         return out
     return ["%s: unexpected" % path]
 
@@ -585,6 +599,9 @@ class MpDeSuite(Suite):
     """C09: well-formed objects in arbitrary legal encodings, all proper prefixes, single-byte corruptions, reserved code, bad keys"""
     name = "mpde"
 
+    def op(self):
+        return "mpde0" if self.cfg.get("USE_DOUBLE", 1) == 0 else "mpde"
+
     def generate(self, rng, tier):
         n = getattr(self, "n", 2500 if tier == "quick" else 200000)
         cases = []
@@ -592,37 +609,48 @@ class MpDeSuite(Suite):
             v = mpack.gen_value(rng, dup_keys=True)
             data = mpack.encode(v, rng)
             rk = rng.choice([0, 2, 3, 4, 5, 7, 8]) + (100 if rng.random() < 0.2 else 0)
-            cases.append(Case("mpde %d %d - %s" % (rk, 20, hx(data)), kind="valid", value=v, data=data))
+            cases.append(Case("%s %d %d - %s" % (self.op(), rk, 20, hx(data)), kind="valid", value=v, data=data))
             if len(data) <= 200 and rng.random() < 0.35:
                 for cut in range(len(data)):
-                    cases.append(Case("mpde 0 20 - %s" % hx(data[:cut]), kind="prefix", data=data[:cut]))
+                    cases.append(Case("%s 0 20 - %s" % (self.op(), hx(data[:cut])), kind="prefix", data=data[:cut]))
             if rng.random() < 0.3 and data:
                 b = bytearray(data)
                 i2 = rng.randrange(len(b))
                 b[i2] = rng.choice([0xC1, b[i2] ^ (1 << rng.randrange(8)), rng.getrandbits(8)])
-                cases.append(Case("mpde 0 20 - %s" % hx(bytes(b)), kind="corrupt"))
+                cases.append(Case("%s 0 20 - %s" % (self.op(), hx(bytes(b))), kind="corrupt"))
         for k in [b"\xc0", b"\x01", b"\xc3", b"\x90", b"\x80", b"\xca\x00\x00\x00\x00", b"\xc4\x01a", b"\xd4\x01a", b"\xcc\x05", b"\xff"]:
-            cases.append(Case("mpde 0 20 - %s" % hx(b"\x81" + k + b"\x01"), kind="badkey"))
+            cases.append(Case("%s 0 20 - %s" % (self.op(), hx(b"\x81" + k + b"\x01")), kind="badkey"))
         for pre in [b"", b"\x91", b"\x92\x01", b"\x81\xa1k", b"\xdc\x00\x01"]:
-            cases.append(Case("mpde 0 20 - %s" % hx(pre + b"\xc1"), kind="c1"))
+            cases.append(Case("%s 0 20 - %s" % (self.op(), hx(pre + b"\xc1")), kind="c1"))
         # headers announcing huge sizes (C06): must not allocate / must be Incomplete or NoMemory
         for h in [b"\xdb\xff\xff\xff\xff", b"\xc6\xff\xff\xff\xff", b"\xdd\xff\xff\xff\xff", b"\xdf\xff\xff\xff\xff", b"\xc9\xff\xff\xff\xff\x01", b"\xda\xff\xff", b"\xdc\xff\xff"]:
-            cases.append(Case("mpde 0 20 - %s" % hx(h), kind="huge"))
+            cases.append(Case("%s 0 20 - %s" % (self.op(), hx(h)), kind="huge"))
         return cases
+
+    @staticmethod
+    def nan_tree(f):
+        """NaN payloads are not observable behaviour: canonical NaN in the tree, and then the re-serialised bytes are not compared"""
+        if len(f) < 2:
+            return f
+        t = re.sub(r"f(7f[89a-f]|ff[89a-f])[0-9a-f]{5}", lambda m: "fNaN" if int(m.group(0)[1:], 16) & 0x7FFFFF else m.group(0), f[1])
+        t = re.sub(r"d(7ff|fff)[0-9a-f]{13}", lambda m: "dNaN" if int(m.group(0)[1:], 16) & ((1 << 52) - 1) else m.group(0), t)
+        if t != f[1]:
+            f = [f[0], t] + f[2:3] + ["*"] + f[4:]
+        return f
 
     def canon_h(self, case, h):
         f = h.split(" ")
         f = [x for x in f if not x.startswith("req")]
         if len(f) >= 3 and f[2] == "-":
             f[2] = "*"
-        return " ".join(f)
+        return " ".join(self.nan_tree(f))
 
     def canon_m(self, case, m):
         rk = int(case.line.split(" ")[1]) % 100
         f = m.split(" ")
         if rk not in (0, 5, 8) and len(f) >= 3:
             f[2] = "*"
-        return " ".join(f)
+        return " ".join(self.nan_tree(f))
 
     def oracle(self, case, h):
         o = Suite.oracle(self, case, h)
@@ -634,7 +662,7 @@ class MpDeSuite(Suite):
             v = case.meta["value"]
             if f[0] != "Ok":
                 return ("mpde:rejected", "well-formed object %s gave %s" % (case.meta["data"][:40].hex(), f[0]))
-            probs = mp_expected_matches(v, parse_tree(f[1]))
+            probs = mp_expected_matches(v, parse_tree(f[1]), use_double=self.cfg.get("USE_DOUBLE", 1) != 0)
             if probs:
                 return ("mpde:wrong-value", "; ".join(probs[:3]) + " for " + case.meta["data"][:40].hex())
             # bin/ext retained: re-serialisation reproduces them; without floats the whole re-serialisation decodes to the same value
